@@ -201,14 +201,20 @@ def cmd_benign(only):
                 for old in json.load(open(RESULTS)):
                     if old.get("kind") == "benign" and old.get("id") == name:
                         rec["checks"] = dict(old.get("checks") or {})
+            pre = os.path.join(V, ".build", "selftest-%s.test" % name)
+            sh([os.path.join(V, "check"), "C01", "--build-only", pre], cwd=V, env=dict(os.environ, VERIF_REPO=d))
             for p in allprops:
-                env = dict(os.environ, VERIF_REPO=d, VERIF_SEED="0")
+                env = dict(os.environ, VERIF_REPO=d, VERIF_SEED="0", VERIF_PREBUILT=pre)
                 t0 = time.time()
                 rc, out = sh([os.path.join(V, "check"), p, "--tier", "quick"], cwd=V, env=env)
                 lines = [l for l in out.splitlines() if l.startswith("VIOLATION") or l.startswith("  shard") or l.startswith("OK ")]
                 rec["checks"][p] = {"exit": rc, "wall_s": round(time.time() - t0, 1), "out": lines[:2]}
                 print(name, p, "exit", rc, lines[:1], flush=True)
             save(rec)
+            try:
+                os.remove(pre)
+            except OSError:
+                pass
         finally:
             drop(d)
 
